@@ -89,9 +89,11 @@ def collect(ctx):
         for o in vlib.read_ndjson(f):
             if o["k"] == "sstep":
                 seen.add((o["op"]["op"], o["err"]))
+                if o["op"]["flt"]:
+                    seen.add(("fault", o["op"]["flt"]))
                 if o["op"]["op"] in ("mget", "query") and len(o["objs"]) >= 2:
                     seen.add((o["op"]["op"], "multi"))
-    need = {(o, e) for o in ("put", "get", "del", "mget", "mkcol") for e in (False, True)} | {("query", False), ("cols", False), ("mget", "multi"), ("query", "multi")}
+    need = {(o, e) for o in ("put", "get", "del", "mget", "mkcol") for e in (False, True)} | {("query", False), ("cols", False), ("mget", "multi"), ("query", "multi")} | {("fault", f) for f in ("h403", "h503", "w507", "plain")}
     if need - seen:
         raise Machinery("store histories never exercised %s" % sorted(map(str, need - seen)))
     # canaries
